@@ -13,7 +13,7 @@ BINARY_PROFILES = ["dev"]
 RULE = ("e2e-file: the REAL p2sh binary (dev profile, working tree) runs generated scripts. `fread`: open/read/read_line/read_to_string on a real temp file, or on stdin fed "
         "through a pipe by a writer that hands over one chunk per blocked read (scripted chunk sizes {1, 2, 4095, 4096, 4097, random}); results are printed as hex by the script. "
         "`fwrite`: open(path, mode) on an existing / missing file, a sequence of writes (byte, array, string; below and above the 8 KiB buffer), ending normal / flush / exit / "
-        "flush+exit; the file is read back after the process ended; `fwriten`: two to four such files open at the same time in one program, writes interleaved, ending normal / exit, some flushed. The Lean driver gets the same abstract scenario and prints model (Model/FileRead.lean) ## spec "
+        "flush+exit; the file is read back after the process ended; `fwriten`: two to four such files open at the same time in one program, writes interleaved, ending normal / exit, some flushed, some handles released (set to null) while later writers hold unflushed data. The Lean driver gets the same abstract scenario and prints model (Model/FileRead.lean) ## spec "
         "(prefix law / documented mode table, Spec/FileIo.lean). The model is the code as it is: a reverted repair shows up both as a model disagreement and as an oracle failure. non-trivial = at least one call returned data (fread) / the open succeeded (fwrite)")
 ASSUMPTIONS = ["a regular file read returns min(n, remaining) bytes; a pipe read returns what the writer has written so far, at most n (the reader axioms of Model/FileRead.Conforms)",
                "the pipe writer writes a chunk only once the reader is blocked in read(0) (observed through /proc/<pid>/syscall) and the previous chunk was drained (FIONREAD): "
@@ -129,6 +129,10 @@ def write_script_n(paths, parts, ending):
     for i, (_m, _e, _ws, fl) in enumerate(parts):
         if fl == "1":
             src.append("if !is_error(f%d) { flush(f%d); }\n" % (i, i))
+        if fl == "2":
+            # the handle is released while later writers are still open with unflushed data: dropping it closes the file
+            # (its bytes must be there), and the others must still be written out when the program ends, also through exit
+            src.append("f%d = null;\n" % i)
     src.append("println(\"done\");\n")
     if ending == "exit":
         src.append("exit(0);\n")
@@ -480,10 +484,13 @@ def cases(ctx):
             parts = []
             for _k in range(rng.randint(2, 4)):
                 ws = [rng.choice(small if rng.random() < 0.7 else blobs) for _ in range(rng.randint(0, 3))]
-                parts.append("%s:%s:%s:%s" % (rng.choice("wax"), rng.choice(["missing", "missing", "a5.1"]), ",".join(ws) or "-", "1" if rng.random() < 0.25 else "0"))
+                parts.append("%s:%s:%s:%s" % (rng.choice("wax"), rng.choice(["missing", "missing", "a5.1"]), ",".join(ws) or "-", rng.choice(["0", "0", "1", "2"])))
             out.append(Case("fwriten %s %s" % (ending, " ".join(parts)), ("write-several",)))
     out.append(Case("fwriten exit w:missing:s1.0,b65:0 a:a5.1:s1.0:0 x:missing:a10.3:0", ("write-several",)))
     out.append(Case("fwriten exit w:missing:s1.0:0 w:missing:s3.5:0", ("write-several",)))
+    out.append(Case("fwriten exit w:missing:s1.0:2 x:missing:s3.5,s1.0:0", ("write-several",)))
+    out.append(Case("fwriten exit w:missing:s1.0:0 a:a5.1:s1.0:2 w:missing:s3.5:0 a:missing:b65:0", ("write-several",)))
+    out.append(Case("fwriten normal w:missing:s1.0:2 a:a5.1:s3.5:0", ("write-several",)))
     for ex in ("missing", "a5.1"):
         out.append(Case("fwrite r %s - normal" % ex, ("write-table",)))
         out.append(Case("fwrite q %s - normal" % ex, ("write-table",)))
